@@ -1,4 +1,4 @@
-import TeakraModel.Machine
+import TeakraModel.Core
 import TeakraModel.Operand
 import TeakraModel.Alu
 import TeakraModel.RegLayoutTypes
@@ -14,60 +14,39 @@ open Exec RegName
 
 namespace Interp
 
-/-! ## memory -/
+/-! ## memory (everything goes through the bus model) -/
 
-/-- `SharedMemory::ReadWord` with the observer hook: log, bounds, read. -/
-def readWord (wa : Nat) : Exec U16 := do
-  let wa := wa % 2 ^ 32
-  let byte := (wa * 2) % 2 ^ 32
-  modify fun c => { c with log := ⟨byte, false, 0⟩ :: c.log }
-  if byte + 1 ≥ 0x80000 then abort .oob
-  return (← get).mem.read (byte / 2)
+private def liftBus {α : Type} (r : R α) : Exec α :=
+  match r with
+  | .ok a => pure a
+  | .error e => abort e
 
-/-- `SharedMemory::WriteWord` -/
-def writeWord (wa : Nat) (v : U16) : Exec Unit := do
-  let wa := wa % 2 ^ 32
-  let byte := (wa * 2) % 2 ^ 32
-  modify fun c => { c with log := ⟨byte, true, v⟩ :: c.log }
-  if byte + 1 ≥ 0x80000 then abort .oob
-  modify fun c => { c with mem := c.mem.write (byte / 2) v }
-
-/-- `MemoryInterfaceUnit::InMMIO` (the comparison is done in `int`, no wrap-around). -/
-def Miu.inMMIO (u : Miu) (addr : U16) : Bool :=
-  addr.toNat ≥ u.mmioBase.toNat && addr.toNat < u.mmioBase.toNat + 0x800
-
-/-- `MemoryInterfaceUnit::ConvertDataAddress` -/
-def convertDataAddress (addr : U16) : Exec Nat := do
-  let u := (← get).miu
-  if u.pageMode == 0 then
-    assert (u.zPage.toNat < 2)
-    return 0x20000 + addr.toNat + u.zPage.toNat * 0x10000
-  else if addr.toNat ≤ u.xSize[0].toNat * 0x400 then
-    assert (u.xPage.toNat < 2)
-    return 0x20000 + addr.toNat + u.xPage.toNat * 0x10000
-  else
-    assert (u.yPage.toNat < 2)
-    return 0x20000 + addr.toNat + u.yPage.toNat * 0x10000
-
-/-- `MemoryInterface::DataRead(address)` (no bypass).  An access inside the MMIO window stops
-the bare core model with `Stop.mmio` (after `ToMMIO`'s `ASSERT(z_page == 0)`). -/
+/-- `MemoryInterface::DataRead(address)` (no bypass): MMIO window → peripheral register, else the
+converted address in shared memory. -/
 def dataRead (addr : U16) : Exec U16 := do
-  let u := (← get).miu
-  if Miu.inMMIO u addr then
-    assert (u.zPage == 0)
-    throw (.mmio ((addr - u.mmioBase) &&& 0x7FF) false)
-  readWord (← convertDataAddress addr)
+  let c ← get
+  let (v, bus, evs, accs) ← liftBus (c.bus.dataRead addr false)
+  set (({ c with bus := bus, log := accs.reverse ++ c.log } : Core).emit evs)
+  return v
 
+/-- `MemoryInterface::DataWrite(address, value)` -/
 def dataWrite (addr : U16) (v : U16) : Exec Unit := do
-  let u := (← get).miu
-  if Miu.inMMIO u addr then
-    assert (u.zPage == 0)
-    throw (.mmio ((addr - u.mmioBase) &&& 0x7FF) true)
-  writeWord (← convertDataAddress addr) v
+  let c ← get
+  let (bus, evs, accs) ← liftBus (c.bus.dataWrite addr v false)
+  set (({ c with bus := bus, log := accs.reverse ++ c.log } : Core).emit evs)
 
 /-- `mem.ProgramRead(address)` -/
-def programRead (addr : U32) : Exec U16 := readWord addr.toNat
-def programWrite (addr : U32) (v : U16) : Exec Unit := writeWord addr.toNat v
+def programRead (addr : U32) : Exec U16 := do
+  let c ← get
+  let (v, accs) ← liftBus (c.bus.programRead addr)
+  set { c with log := accs.reverse ++ c.log }
+  return v
+
+/-- `mem.ProgramWrite(address, value)` -/
+def programWrite (addr : U32) (v : U16) : Exec Unit := do
+  let c ← get
+  let (bus, accs) ← liftBus (c.bus.programWrite addr v)
+  set { c with bus := bus, log := accs.reverse ++ c.log }
 
 /-! ## accumulators and flags -/
 
